@@ -2843,3 +2843,159 @@ func (g *EffGraph) firstCallObligations(prop string) []*EffObl {
 	}
 	return out
 }
+
+// ---------------------------------------------------------------------------
+// C04 / C05: nothing escapes a goroutine
+// ---------------------------------------------------------------------------
+// A panic that leaves the function of a `go` statement kills the process: no
+// host recover() can see it.  For every goroutine started in the library:
+// (1) its function defers a closure that calls recover(); (2) in such a
+// deferred closure - which runs after the recover, unprotected - no call can
+// raise a context termination, except through a function that catches whatever
+// its callees raise (a deferred recover() whose closure has no panic
+// instruction: it hands the value on instead of re-raising it).
+
+func hasRecover(fn *ssa.Function) bool {
+	for _, b := range fn.Blocks {
+		for _, in := range b.Instrs {
+			if call, ok := in.(*ssa.Call); ok {
+				if bi, ok := call.Call.Value.(*ssa.Builtin); ok && bi.Name() == "recover" {
+					return true
+				}
+			}
+		}
+	}
+	return false
+}
+
+func hasPanicInstr(fn *ssa.Function) bool {
+	for _, b := range fn.Blocks {
+		for _, in := range b.Instrs {
+			if _, ok := in.(*ssa.Panic); ok {
+				return true
+			}
+		}
+	}
+	return false
+}
+
+// deferredClosures lists the closures that fn defers directly.
+func deferredClosures(fn *ssa.Function) []*ssa.Function {
+	var out []*ssa.Function
+	for _, b := range fn.Blocks {
+		for _, in := range b.Instrs {
+			d, ok := in.(*ssa.Defer)
+			if !ok {
+				continue
+			}
+			switch v := d.Call.Value.(type) {
+			case *ssa.MakeClosure:
+				if f, ok := v.Fn.(*ssa.Function); ok {
+					out = append(out, f)
+				}
+			case *ssa.Function:
+				out = append(out, v)
+			}
+		}
+	}
+	return out
+}
+
+// catchesAll: fn defers a closure that recovers and never panics itself, so no
+// panic raised by fn's callees leaves fn.
+func catchesAll(fn *ssa.Function) bool {
+	for _, d := range deferredClosures(fn) {
+		if hasRecover(d) && !hasPanicInstr(d) {
+			return true
+		}
+	}
+	return false
+}
+
+func (g *EffGraph) goroutineEscapeObligations(scope func(string) bool) []*EffObl {
+	var out []*EffObl
+	n := 0
+	for _, fn := range g.funcs {
+		root := fn
+		for root.Parent() != nil {
+			root = root.Parent()
+		}
+		if root.Pkg == nil || !scope(root.Pkg.Pkg.Path()) {
+			continue
+		}
+		k := 0
+		for _, b := range fn.Blocks {
+			for _, in := range b.Instrs {
+				gi, ok := in.(*ssa.Go)
+				if !ok {
+					continue
+				}
+				k++
+				n++
+				pos := relPos(g.eng, g.eng.fset.Position(gi.Pos()))
+				o := &EffObl{Name: fmt.Sprintf("%s/effect:!goroutine-escape#%d", effName(fn), k), Kind: "effect", Pos: pos,
+					Desc: "no context termination can leave the goroutine started here (it would kill the process)"}
+				var body *ssa.Function
+				switch v := gi.Call.Value.(type) {
+				case *ssa.MakeClosure:
+					body, _ = v.Fn.(*ssa.Function)
+				case *ssa.Function:
+					body = v
+				}
+				if body == nil {
+					o.Undecided = "goroutine function is not statically known"
+					out = append(out, o)
+					continue
+				}
+				why, chain := g.terminates(body)
+				if why == "" {
+					o.OK = true
+					o.Desc += " (its function cannot raise one)"
+					out = append(out, o)
+					continue
+				}
+				var handlers []*ssa.Function
+				for _, d := range deferredClosures(body) {
+					if hasRecover(d) {
+						handlers = append(handlers, d)
+					}
+				}
+				if len(handlers) == 0 {
+					o.Witness = "goroutine function " + effName(body) + " defers no recover(); it can terminate: " + why + " via " + strings.Join(chain, " -> ")
+					out = append(out, o)
+					continue
+				}
+				var bad []string
+				for _, h := range handlers {
+					w, ch, _ := g.reach(h, func(f *ssa.Function) bool { return catchesAll(f) }, func(f *ssa.Function) (string, bool) {
+						if f != h && catchesAll(f) {
+							return "", false
+						}
+						for _, b := range f.Blocks {
+							for _, in := range b.Instrs {
+								if p, ok := in.(*ssa.Panic); ok {
+									if mi, ok := p.X.(*ssa.MakeInterface); ok && g.isCTE(mi.X.Type()) {
+										return "panic(ContextTerminationError) at " + relPos(g.eng, g.eng.fset.Position(p.Pos())), true
+									}
+								}
+							}
+						}
+						return "", false
+					})
+					if w != "" {
+						bad = append(bad, "the deferred handler "+effName(h)+" runs after its recover() and can itself terminate: "+w+" via "+strings.Join(ch, " -> "))
+					}
+				}
+				if len(bad) == 0 {
+					o.OK = true
+					o.Desc += " (recovered by its deferred handler, which cannot terminate itself)"
+				} else {
+					o.Witness = strings.Join(bad, "; ")
+				}
+				out = append(out, o)
+			}
+		}
+	}
+	out = append(out, &EffObl{Name: "effects/goroutines-found", Kind: "cover", Desc: fmt.Sprintf("vacuity guard: %d go statements analysed", n), OK: n > 0})
+	return out
+}
